@@ -31,6 +31,12 @@ InitOK(ev) ==
   /\ h.block_align = ev.ch * BytesPerSample(ev.f) /\ h.bits_per_sample = 8 * BytesPerSample(ev.f)
   /\ h.byte_rate = U32(Mul(ev.rate, U16(h.block_align)))
 
+(* a byte of an extension the codec skips (cb_size other than 22): re-encoded as zero *)
+IgnoredByte(b, sz, i) ==
+  LET pr == Parse(b, sz) IN
+  /\ HasExt(pr.h) /\ pr.h.cb_size # 22 /\ Lt(pr.h.fmt_chunk_size, FromNat(Big, 4))
+  /\ i > 38 /\ i <= 38 + ToNat(pr.h.fmt_chunk_size) - 18
+
 (* C14 (+ the decode-first half of C13) *)
 DecodeOK(ev) ==
   LET pr == Parse(ev.b, ev.sz) IN
@@ -42,6 +48,7 @@ DecodeOK(ev) ==
        /\ ev.val \in {0, EINVAL} /\ (ev.val = 0 => Validate(Hdr(ev.h)) = 0)
   /\ (Mode = "C13" /\ ev.ret >= MinSize /\ ev.ret <= ev.sz) =>      \* accepted (whatever length the implementation says it consumed):
         /\ ev.relen = ev.ret                                          \* re-encoding gives back exactly that many bytes ...
+        /\ \A i \in 1..ev.ret : ev.re[i] = ev.b[i] \/ IgnoredByte(ev.b, ev.sz, i)   \* ... the bytes that were decoded ...
         /\ (ev.ret = pr.consumed =>                                   \* ... and, where the length is the header's, the structure and the bytes
               /\ Hdr(ev.h) = pr.h
               /\ ev.re = Normalise(ev.b, ev.sz))
